@@ -268,3 +268,35 @@ func c02L9(c *Ctx) {
 	}
 	r.Min("C02-L9", n, 5, "C01-V4 obligations")
 }
+
+func init() {
+	old := registry["C02"].Run
+	registry["C02"].Run = func(c *Ctx) { old(c); c02Heartbeat(c) }
+}
+
+// L2 (heartbeat): a heartbeat must not forward a follower's commit index past what the leader knows the follower holds:
+// the message carries min(Match of that follower, leader's commit), and the follower commits exactly that (a follower that
+// clamped a larger value to its own last index would commit a stale tail it still carries from an old term).
+func c02Heartbeat(c *Ctx) {
+	r := c.R
+	if u := c.unit("C02-L2", "raft.(*raft).sendHeartbeat"); u != nil {
+		r.StoreValues("C02-L2", u, an.LocalStore("commit"), []string{"raft.min(recv.getProgress(p0).Match, recv.raftLog.committed)", "raft.min(pr.Match, recv.raftLog.committed)"}, 0)
+		lits, err := c.W.PkgLits("raft", "raft/raftpb.Message")
+		if err == nil {
+			n := 0
+			for _, l := range lits {
+				if l.Func != u.Name {
+					continue
+				}
+				n++
+				v := l.Fields["Commit"]
+				ok := v == "raft.min(recv.getProgress(p0).Match, recv.raftLog.committed)" || v == "raft.min(pr.Match, recv.raftLog.committed)" || v == "commit"
+				r.Check("C02-L2", u.Name+": the heartbeat carries min(Match of the receiver, commit index)", c.P.Pos(l.Pos), ok, "Commit: "+v)
+			}
+			r.Min("C02-L2", n, 1, "heartbeat message literal")
+		}
+	}
+	if u := c.unit("C02-L2", "raft.(*raft).handleHeartbeat"); u != nil {
+		r.ArgValues("C02-L2", u, an.Call("raft.(*raftLog).commitTo"), 0, []string{"p0.Commit"}, 1)
+	}
+}
